@@ -185,8 +185,11 @@ where
             match wait_mode {
                 WaitMode::Block => limiter.until_key_ready(peer_id).await,
                 WaitMode::ReturnError => {
+                    // Read the clock before the limiter decides: the hint is then measured from an
+                    // instant no later than the decision and can never be zero for a refusal.
+                    let now = clock.now();
                     if let Err(e) = limiter.check_key(peer_id) {
-                        let wait_time = e.wait_time_from(clock.now());
+                        let wait_time = e.wait_time_from(now);
                         return Err(anemo::rpc::Status::new(
                             anemo::types::response::StatusCode::TooManyRequests,
                         )
